@@ -46,6 +46,7 @@ type c16Case struct {
 	Required    []bool     `json:"required"` // env file i is required
 	EnvAsList   bool       `json:"env_as_list"`
 	FileSpell   int        `json:"file_spelling"` // 0 list of maps, 1 list of strings (all required), 2 single string (one file)
+	ReqSpell    int        `json:"required_spelling,omitempty"` // how `required` is written: 0 boolean | 1 "true"/"false" | 2 "yes"/"no" | 3 "On"/"OFF" | 4 out of a variable's default
 	Discard     bool       `json:"discard"`
 	LabelsList  bool       `json:"labels_as_list"`
 	// Dangling: a missing env file i is not absent but a symbolic link whose target does not exist;
@@ -101,6 +102,7 @@ func genC16(t *rapid.T) c16Case {
 	cs.LabelsList = rapid.Bool().Draw(t, "labelslist")
 	cs.Discard = rapid.Bool().Draw(t, "discard")
 	cs.FileSpell = 0
+	cs.ReqSpell = rapid.SampledFrom([]int{0, 0, 0, 1, 2, 3, 4}).Draw(t, "reqspell")
 	allPlain := true
 	for i := 0; i < cs.NFiles; i++ {
 		if !cs.Required[i] {
@@ -315,9 +317,9 @@ func (cs c16Case) build() (loadCase, map[string]*string, map[string]string, bool
 			for _, f := range cs.envFileOrder() {
 				m := map[string]any{"path": fmt.Sprintf("./envs/file%d.env", f)}
 				if !cs.Required[f] {
-					m["required"] = false
+					m["required"] = cs.reqValue(false)
 				} else if f%2 == 0 {
-					m["required"] = true
+					m["required"] = cs.reqValue(true)
 				}
 				l = append(l, m)
 			}
@@ -397,6 +399,25 @@ func envStr(m map[string]*string) string {
 		}
 	}
 	return strings.Join(parts, " ")
+}
+
+// reqValue spells the `required` flag of an env_file entry: the schema admits a boolean or a string
+func (cs c16Case) reqValue(b bool) any {
+	i := 0
+	if b {
+		i = 1
+	}
+	switch cs.ReqSpell {
+	case 1:
+		return []string{"false", "true"}[i]
+	case 2:
+		return []string{"no", "yes"}[i]
+	case 3:
+		return []string{"OFF", "On"}[i]
+	case 4:
+		return []string{"${C16_NOT_SET_ANYWHERE:-false}", "${C16_NOT_SET_ANYWHERE:-true}"}[i]
+	}
+	return b
 }
 
 func c16Check(c *Ctx, cs c16Case) *Failure {
